@@ -1,4 +1,5 @@
 CONSTANTS
+  MinItems = 0
   NC = 1
   L = 6
   MaxItems = 4
